@@ -942,6 +942,18 @@ static int op_same(char **t, int nt, bool live_only) {
   return 0;
 }
 
+/* ---- C rdp2 / popcnt: the arithmetic helpers of blake3_impl.h on their whole 64-bit domain */
+static int op_arith(char **t, int nt, bool pop) {
+  if (nt != 1) return -1;
+  char *end = NULL;
+  errno = 0;
+  unsigned long long x = strtoull(t[0], &end, 10);
+  if (errno || !end || *end) return -1;
+  if (pop) fprintf(OUT, "%u", popcnt((uint64_t)x));
+  else fprintf(OUT, "%llu", (unsigned long long)round_down_to_power_of_2((uint64_t)x));
+  return 0;
+}
+
 /* ---- C feat */
 
 static int level_mask(int level) {
@@ -991,6 +1003,7 @@ static int op_featmask(int nt) {
 
 static __thread struct tramp g_tramp;
 static __thread uint64_t g_sentinel_ctr;
+static __thread int g_align; /* CK align <0|16|32|48>: position of rsp within a 64-byte line at the call */
 static __thread int g_dirty; /* CK dirty <0|1|2>: garbage in the unused upper bits of 8-bit arguments */
 
 static uint64_t narrow_arg(uint64_t v) {
@@ -1026,6 +1039,7 @@ static int call_kernel(const flavour_t *f, void *fn, const uint64_t a[10]) {
   memset(t->xmm_got, 0, sizeof t->xmm_got);
   t->rsp_before = t->rsp_after = 0;
   t->rflags_after = 0;
+  t->align_off = (uint64_t)g_align;
   int sig = guarded(tramp_go, (void *)(uintptr_t)f);
   if (sig != 0) return sig_flag(sig);
   int flags = 0;
@@ -1383,6 +1397,14 @@ static int ck_dirty(char **t, int nt) {
   return 0;
 }
 
+static int ck_align(char **t, int nt) {
+  uint64_t v;
+  if (nt != 1 || !parse_u64(t[0], &v) || v > 48 || v % 16 != 0) return -1;
+  g_align = (int)v;
+  fputs("ok", OUT);
+  return 0;
+}
+
 /* ------------------------------------------------------------------------------------------- */
 
 #define MAX_TOKENS 32
@@ -1405,6 +1427,8 @@ static int dispatch(char **t, int nt) {
     if (strcmp(op, "clone") == 0) return op_clone(r, n);
     if (strcmp(op, "same") == 0) return op_same(r, n, false);
     if (strcmp(op, "samelive") == 0) return op_same(r, n, true);
+    if (strcmp(op, "rdp2") == 0) return op_arith(r, n, false);
+    if (strcmp(op, "popcnt") == 0) return op_arith(r, n, true);
     return -1;
   }
   if (nt >= 2 && strcmp(t[0], "CK") == 0) {
@@ -1418,6 +1442,7 @@ static int dispatch(char **t, int nt) {
     if (strcmp(op, "xofmany") == 0) return ck_xofmany(r, n);
     if (strcmp(op, "list") == 0) return ck_list(n);
     if (strcmp(op, "dirty") == 0) return ck_dirty(r, n);
+    if (strcmp(op, "align") == 0) return ck_align(r, n);
     return -1;
   }
   return -1;
